@@ -41,12 +41,25 @@ def _rng(xs, lo, hi):
             return False
     return True
 
-K = tier(2, 3)            # handler check points per operation
-NC = tier(2, 3)           # C-CANCEL requests
+# (K, NC) = (handler check points per operation, number of C-CANCEL requests); one set of shards per pair
+CONFIGS = tier(((2, 2),), ((2, 3), (3, 2)))
 TS = "1.2.840.10008.1.2"
 MODELS = {"find": "1.2.840.10008.5.1.4.1.2.1.1", "move": "1.2.840.10008.5.1.4.1.2.1.2", "get": "1.2.840.10008.5.1.4.1.2.1.3"}
 CX_ID = {"find": 1, "move": 3, "get": 5}
-S = spec.slots(K)
+
+
+def _K():
+    return shard("K", CONFIGS[0][0])
+
+
+def _NC():
+    return shard("NC", CONFIGS[0][1])
+
+
+def _S():
+    return spec.slots(_K())
+
+
 DS = Dataset()
 DS.PatientID = "1"
 
@@ -134,8 +147,9 @@ class World:
 
     def _checks(self, event):
         op = self.op
+        S = _S()
         base = S["CHECK1"] if op == 1 else S["CHECK2"]
-        for i in range(K):
+        for i in range(_K()):
             self.deliver(base + i)
             self.seen[op].append(event.is_cancelled)
             yield i
@@ -187,7 +201,7 @@ _STUBS = [
     "dimse.DIMSEMessage replaced by a carrier (codec is C15-C17); real _run_reactor single-stepped (time.sleep no-op, "
     "_reactor_checkpoint stub); assoc.acse / assoc.dul stand-ins (never aborted, never released)",
     "service_class.encode replaced (identifier encoding is pydicom's); ae.associate returns an idle stub (C-MOVE)",
-    "handlers read event.is_cancelled at %d check points and keep yielding Pending (they never act on the cancel)" % K,
+    "handlers read event.is_cancelled at K check points and keep yielding Pending (they never act on the cancel)",
 ]
 
 
@@ -202,15 +216,16 @@ def _finals_ok(assoc, m1, m2):
 @harness(
     "C23",
     timeout=(170, 900),
-    shards=[dict(op2=o, first=s, K=K) for o in ("find", "get", "move") for s in range(S["N"])],
+    shards=[dict(op2=o, first=s, K=k, NC=nc) for (k, nc) in CONFIGS for o in ("find", "get", "move")
+            for s in range(spec.slots(k)["N"])],
     functions=["dimse:DIMSEServiceProvider.receive_primitive", "dimse:DIMSEServiceProvider.get_msg",
                "association:Association._run_reactor", "association:Association._serve_request",
                "service_class:QueryRetrieveServiceClass.SCP", "service_class:ServiceClass._c_find_scp",
                "service_class:QueryRetrieveServiceClass._get_scp", "service_class:QueryRetrieveServiceClass._move_scp",
                "service_class:ServiceClass.is_cancelled", "events:Event.is_cancelled", "events:trigger"],
     bounds="a C-FIND (message id m1) followed by a C-FIND / C-GET / C-MOVE (m2), m1, m2 any 0..65535 (solver-symbolic, equal or "
-           "not); %d C-CANCELs, each with any id 0..65535 and any of the %d arrival slots (the first cancel's slot is the "
-           "shard); %d handler check points per operation" % (NC, S["N"], K),
+           "not); NC C-CANCELs, each with any id 0..65535 and any of the 7+2K arrival slots (the first cancel's slot is the "
+           "shard); K handler check points per operation; (K, NC) in %s" % (CONFIGS,),
     stubs=_STUBS,
     outside="pre-emption inside a step (e.g. between the final response and the clearing in _serve_request); more than two "
             "operations; handlers that stop on a cancel",
@@ -219,13 +234,14 @@ def _finals_ok(assoc, m1, m2):
 def cancel_routing(m1: int, m2: int, slots_: List[int], ids: List[int]) -> bool:
     """
     pre: 0 <= m1 <= 65535 and 0 <= m2 <= 65535
-    pre: len(slots_) == NC and len(ids) == NC
-    pre: _rng(slots_, 0, S["N"] - 1) and slots_[0] == shard("first", 0)
+    pre: len(slots_) == _NC() and len(ids) == _NC()
+    pre: _rng(slots_, 0, _S()["N"] - 1) and slots_[0] == shard("first", 0)
     pre: _rng(ids, 0, 65535)
     pre: not kf.skip("C23-cancel-before-serve", m1=m1, m2=m2, slots_=slots_, ids=ids)
     post: _ == True
     """
     op2 = shard("op2", "find")
+    K, S = _K(), _S()
     with untraced():
         assoc = _setup()
     w = World(assoc, slots_, ids)
